@@ -37,10 +37,17 @@ def gate_instances():
     for cw in ((5,), (5, 6)):
         for b in ("RX", "RY", "RZ", "PhaseShift"):
             out.append((f"C({b},{len(cw)})", 1, lambda p, b=b, cw=cw: qp.ctrl(getattr(qp, b)(p[0], wires=0), control=list(cw))))
+    # generators with a NON-equidistant spectrum (all pairwise eigenvalue differences are frequencies, not only those to the lowest one)
+    out.append(("Evolution[2Z0+Z1/2]", 1, lambda p: qp.evolve(2.0 * qp.Z(0) + 0.5 * qp.Z(1), p[0])))
+    out.append(("Evolution[X0X1+3Z2/2]", 1, lambda p: qp.evolve(1.0 * (qp.X(0) @ qp.X(1)) + 1.5 * qp.Z(2), p[0])))
+    # legacy ControlledOp over bases whose generator has no zero eigenvalue: the control contributes the eigenvalue 0
+    for b, nwb in (("SingleExcitationPlus", 2), ("SingleExcitationMinus", 2), ("DoubleExcitationPlus", 4), ("FermionicSWAP", 2), ("OrbitalRotation", 4)):
+        if hasattr(qp, b):
+            out.append((f"Ctrl[{b}]", 1, lambda p, b=b, nwb=nwb: qp.ctrl(getattr(qp, b)(p[0], wires=list(range(1, nwb + 1))), control=0)))
     return out
 
 
-def dft_spectrum(f, j, th0, maxfreq=4):
+def dft_spectrum(f, j, th0, maxfreq=6):
     """frequencies (multiples of 1/2) present in theta_j -> expectation value"""
     L = 4 * math.pi
     n = 8 * maxfreq + 1
